@@ -590,6 +590,14 @@ func (a *Agent) handleUDPOpenAck(peerID identity.AgentID, frame *protocol.Frame)
 		dest.closePendingOpen(errors.New("UDP open refused: acknowledgement carries no encryption key"))
 		return
 	}
+	if dest.EphemeralPrivKey == zeroKey {
+		// The key exchange of this open is over (the private key is wiped as
+		// soon as it has been used). A repeated or replayed acknowledgement
+		// must not run it again: with the wiped key
+		// it would install a session key that anyone who has seen the two
+		// public keys can compute.
+		return
+	}
 	if ack.EphemeralPubKey != zeroKey {
 		// Compute shared secret using our private key and remote public key
 		sharedSecret, err := crypto.ComputeECDH(dest.EphemeralPrivKey, ack.EphemeralPubKey)
